@@ -16,6 +16,9 @@ pub enum Escapes {
     None,
     NonAscii,
     SomeAscii,
+    /// the less common spellings: `\/` for a slash, upper-case hex digits, `\u00XX` for
+    /// printable ASCII, `\b` / `\f` style escapes written as `\u0008` / `\u000C`
+    Exotic,
 }
 
 #[derive(Debug, Clone, Serialize, Deserialize, PartialEq)]
@@ -111,9 +114,16 @@ impl<'a> W<'a> {
                 '\r' => self.out.push_str("\\r"),
                 '\t' => self.out.push_str("\\t"),
                 c if (c as u32) < 0x20 => self.out.push_str(&format!("\\u{:04x}", c as u32)),
+                '/' if self.layout.escapes == Escapes::Exotic && self.esc_rng.next() % 2 == 0 => self.out.push_str("\\/"),
+                c if self.layout.escapes == Escapes::Exotic && (!c.is_ascii() || self.esc_rng.next() % 4 == 0) => {
+                    let mut buf = [0u16; 2];
+                    for u in c.encode_utf16(&mut buf) {
+                        self.out.push_str(&format!("\\u{:04X}", u));
+                    }
+                }
                 c => {
                     let esc = match self.layout.escapes {
-                        Escapes::None => false,
+                        Escapes::None | Escapes::Exotic => false,
                         Escapes::NonAscii => !c.is_ascii(),
                         Escapes::SomeAscii => !c.is_ascii() || self.esc_rng.next() % 3 == 0,
                     };
@@ -232,9 +242,9 @@ mod tests {
     use super::*;
     #[test]
     fn roundtrip() {
-        let v: Value = serde_json::from_str(r#"{"a":[1,2,{"b":"é x\"y"}],"c":{"d":null,"e":true}}"#).unwrap();
+        let v: Value = serde_json::from_str(r#"{"a":[1,2,{"b":"é x\"y/z 𝄞"}],"c/d":{"d":null,"e":true}}"#).unwrap();
         for ws in [Ws::Compact, Ws::Pretty(2), Ws::Random(7)] {
-            for esc in [Escapes::None, Escapes::NonAscii, Escapes::SomeAscii] {
+            for esc in [Escapes::None, Escapes::NonAscii, Escapes::SomeAscii, Escapes::Exotic] {
                 for (pad_to, pos) in [(0, PadPos::After), (9000, PadPos::Before), (9000, PadPos::Inside), (20000, PadPos::After)] {
                     let l = Layout { ws: ws.clone(), key_seed: 5, escapes: esc.clone(), pad_to, pad_pos: pos, align_non_ascii: None };
                     let b = write(&v, &l);
